@@ -1255,6 +1255,11 @@ class DiskRefsContainer(RefsContainer):
         self._check_refname(name)
         self._check_refname(other)
         filename = self.refpath(name)
+        # like any other write: refuse file/directory collisions with packed
+        # refs, create missing parent directories and clear empty leftovers
+        self._check_no_packed_conflict(name, filename)
+        ensure_dir_exists(os.path.dirname(filename))
+        _remove_empty_dirs(filename)
         f = GitFile(filename, "wb")
         try:
             f.write(SYMREF + other + b"\n")
